@@ -423,7 +423,7 @@ struct Collect {
 }
 
 struct ClosureInfo {
-    params: Vec<(usize, bool)>, // end offset of each param pattern, already typed?
+    params: Vec<(usize, usize, bool, bool)>, // start, end offset of each param pattern, already typed?, is plain ident
     or2_end: usize,
     has_ret: bool,
     body_start: usize,
@@ -490,7 +490,7 @@ impl<'ast> Visit<'ast> for Collect {
         let params = c
             .inputs
             .iter()
-            .map(|p| (br(p.span()).1, matches!(p, syn::Pat::Type(_))))
+            .map(|p| (br(p.span()).0, br(p.span()).1, matches!(p, syn::Pat::Type(_)), matches!(p, syn::Pat::Ident(_))))
             .collect();
         let (bs, be) = br(c.body.span());
         self.closures.push(ClosureInfo {
@@ -948,11 +948,12 @@ fn finish(
         for (k, v) in cls {
             let idx: usize = k.parse().map_err(|_| "closure key")?;
             let c = col.closures.get(idx).ok_or(format!("closure {} not found in `{}` ({} closures)", idx, sel, col.closures.len()))?;
+            let mut destructure = String::new();
             if let Some(tys) = v["params"].as_array() {
                 if tys.len() != c.params.len() {
                     return Err(format!("closure {}: {} params, {} types", idx, c.params.len(), tys.len()));
                 }
-                for (t, (end, typed)) in tys.iter().zip(c.params.iter()) {
+                for (pi, (t, (start, end, typed, is_ident))) in tys.iter().zip(c.params.iter()).enumerate() {
                     let t = t.as_str().unwrap_or("");
                     if t.is_empty() || *typed {
                         continue;
@@ -960,7 +961,15 @@ fn finish(
                     if depth0_has(t, &['{', '}', ';', '|']) {
                         return Err("bad closure param type".into());
                     }
-                    cx.ins(*end, &format!(": {}", t), true);
+                    if *is_ident {
+                        cx.ins(*end, &format!(": {}", t), true);
+                    } else {
+                        // R11: pattern parameter -> variable + destructuring `let` (Verus: only variables supported)
+                        let pat = src[*start..*end].to_string();
+                        cx.rep(*start, *end, &format!("vx_p{}: {}", pi, t));
+                        destructure.push_str(&format!("let {} = vx_p{}; ", pat, pi));
+                        cx.count("R11(closure pattern parameter -> variable + let)");
+                    }
                 }
             }
             let ret = v["ret"].as_str().unwrap_or("");
@@ -974,10 +983,13 @@ fn finish(
                     return Err("bad closure ret".into());
                 }
                 cx.ins(c.or2_end, &format!(" -> ({}) {} ", ret, spec.trim()), true);
-                if !c.body_is_block {
-                    cx.ins(c.body_start, "{ ", true);
-                    cx.ins(c.body_end, " }", true);
+                if !c.body_is_block || !destructure.is_empty() {
+                    cx.ins(c.body_start, &format!("{{ {}", destructure), destructure.is_empty());
+                    cx.ins(c.body_end, " }", destructure.is_empty());
                 }
+            } else if !destructure.is_empty() {
+                cx.ins(c.body_start, &format!("{{ {}", destructure), false);
+                cx.ins(c.body_end, " }", false);
             }
         }
     }
